@@ -35,14 +35,16 @@ Emit(v) == PrintT(<<"@@", ToJson(v)>>)
 
 (* comparison functions.  cmp: "lt" none given; "ltf" a<b; "gt" a>b; "mod2" a%2 < b%2 (a strict weak order that
    equates different elements); "false" (the empty order: everything equivalent); the rest are NOT strict weak
-   orders: "le" a<=b, "true", "rand" (pseudo-random, seed k), "errk" (a<b, but the k-th call raises "E") *)
-Cmps == {[cmp |-> x, k |-> 0] : x \in {"lt", "ltf", "gt", "mod2", "false", "le", "true"}}
+   orders: "le" a<=b, "true", "rand" (pseudo-random, seed k), "errk" (a<b, but the k-th call raises "E").
+   What a comparison function returns is adjusted to one value and tested for truth: "ltnil" returns true when a<b and
+   NOTHING otherwise, "gtnum" returns a number (truthy) when a>b and nil otherwise, "ltmany" returns a<b followed by extra values. *)
+Cmps == {[cmp |-> x, k |-> 0] : x \in {"lt", "ltf", "gt", "mod2", "false", "le", "true", "ltnil", "gtnum", "ltmany"}}
           \cup {[cmp |-> "rand", k |-> s] : s \in Seeds} \cup {[cmp |-> "errk", k |-> k] : k \in ErrKs}
 
-Consistent(cmp) == cmp \in {"lt", "ltf", "gt", "mod2", "false"}
+Consistent(cmp) == cmp \in {"lt", "ltf", "gt", "mod2", "false", "ltnil", "gtnum", "ltmany"}
 Less(cmp, a, b) ==
-  CASE cmp \in {"lt", "ltf", "errk"} -> a < b
-    [] cmp = "gt" -> a > b
+  CASE cmp \in {"lt", "ltf", "errk", "ltnil", "ltmany"} -> a < b
+    [] cmp \in {"gt", "gtnum"} -> a > b
     [] cmp = "mod2" -> (a % 2) < (b % 2)
     [] cmp = "false" -> FALSE
 
